@@ -224,7 +224,7 @@ class Env:
                 continue
             ub = v if ub is None else max(ub, v)
         if ub is None:
-            for d in body.defs().get(0, []):
+            for d in body.ret_defs():
                 if d[0] == 'assign' and d[3]['k'] == 'aggr' and d[3].get('variant') == 'Ok':
                     st = an.local_at.get(d[1], {})
                     v = st.get(('p', 0))
@@ -492,7 +492,7 @@ def setup_struct_invariants(env):
     import c06
     p = prog.one(EV + 'eval_script_pattern')
     env.template_len = {}
-    for d in p.defs().get(0, []):
+    for d in p.ret_defs():
         v = p.rvalue_expr(d[3]) if d[0] == 'assign' else p.call_expr(d[2])
         c = canon(v)
         m = re.match(r'^ScriptPattern::(\w+)\{', c)
